@@ -10,6 +10,11 @@ import Mdsort.Proofs.Mime
 import Mdsort.Model.Eval
 import Driver.Ast
 import Mdsort.Spec.Rules
+import Mdsort.Spec.Interp
+import Mdsort.Proofs.Interp
+import Mdsort.Spec.Flags
+import Mdsort.Spec.Time
+import Mdsort.Proofs.FlagsTime
 
 /-!
 Line-protocol driver: one request per line `<side> <op> <hexarg>*`, one response
@@ -247,6 +252,68 @@ def handleSpecEval (args : List Bytes) : String :=
           s!"{triName o.res} {if o.crosses then "CROSSES" else "LOCAL"} [{String.intercalate "," (np.map keyStr)}] {match lp with | none => "-" | some k => keyStr k}"
   | _ => "BADOP"
 
+/-- `interp <template> <path or ~ for no macro table> (<group>* 7c)*`: model and specification side by side. -/
+def splitPats (as : List Bytes) : List (List Bytes) :=
+  let rec go (as : List Bytes) (cur : List Bytes) (acc : List (List Bytes)) : List (List Bytes) :=
+    match as with
+    | [] => if cur.isEmpty then acc else acc ++ [cur]
+    | a :: r => if a == [124] then go r [] (acc ++ [cur]) else go r (cur ++ [a]) acc
+  go as [] []
+
+def optOptHex : Option (Option Bytes) → String
+  | none => "UNDEFINED"
+  | some none => "ERROR"
+  | some (some b) => "OK " ++ toHex b
+
+def handleInterp (side : String) (args : List Bytes) : String :=
+  match args with
+  | t :: path :: caps =>
+    let pats := splitPats caps
+    let macros : Option (List (Bytes × Bytes)) := if path == [126] then none else some [(ofString "path", path)]
+    let before : Model.MatchList := [{ ty := .mtch, lno := 1, part := 0 }] ++
+      pats.map fun gs => ({ ty := .header, lno := 1, part := 0, subs := gs.map fun g => { str := g, off := none } } : Model.Match)
+    if side == "M" then optOptHex (some (Model.interpolate before macros t))
+    else optOptHex (Spec.interp (Proofs.ruleCaps before) macros t)
+  | _ => "BADOP"
+
+def asNat (b : Bytes) : Nat := ((String.ofList (b.map fun c => Char.ofNat c.toNat)).toNat?).getD 0
+def asInt (b : Bytes) : Int := ((String.ofList (b.map fun c => Char.ofNat c.toNat)).toInt?).getD 0
+
+def optIntS : Option Int → String
+  | none => "NONE"
+  | some z => s!"OK {z}"
+
+def subdirOf (b : Bytes) : Model.Subdir := if b == [110] then .new else .cur
+
+/-- Small pure functions: time, flags, paths. -/
+def handleSmall (side op : String) (args : List Bytes) : Option String :=
+  match side, op, args with
+  | "M", "tzoff", [s] => some (optIntS (Model.tzoff s))
+  | "M", "tparse", date :: now :: _ =>
+    some (optIntS (Model.timeParse strptimeEnv (zoneEnv (asInt now)) date))
+  | "S", "tparse", date :: now :: _ =>
+    -- specification: platform strptime + platform timegm, minus the zone
+    match strptimeEnv date with
+    | none => some "NONE"
+    | some (tm, rest) =>
+      let t : Int := ((timegmFFI tm.year.toNat.toUInt32 tm.mon.toNat.toUInt32 tm.mday.toNat.toUInt32
+                        tm.hour.toNat.toUInt32 tm.min.toNat.toUInt32 tm.sec.toNat.toUInt32).toNat : Int) - 1099511627776
+      let z := rest.drop (nspaces rest)
+      match Model.tzoff z with
+      | some off => some (optIntS (some (t - off)))
+      | none => if z.isEmpty then some "NONE" else some (optIntS ((zoneEnv (asInt now) z).map fun off => t - off))
+  | "M", "flagsp", [name] => some (match Model.flagsParse name with | none => "NONE" | some mf => s!"OK {mf.upper} {mf.lower}")
+  | "S", "flagsp", [name] => some (match (Spec.nameFlags name).map Proofs.ofLetters with | none => "NONE" | some mf => s!"OK {mf.upper} {mf.lower}")
+  | "M", "flagss", [u, l, siz] => some (optHex (Model.flagsStr ⟨asNat u, asNat l⟩ (min (asNat siz) 256)))
+  | "S", "flagss", [u, l, siz] =>
+    if asNat siz < 64 then none else some (optHex (some (Spec.flagSuffix (Proofs.lettersOf ⟨asNat u, asNat l⟩))))
+  | "M", "msgflags", [a, b, u, l] => some (optHex (Model.msgflags (subdirOf a) (subdirOf b) ⟨asNat u, asNat l⟩))
+  | "S", "msgflags", [a, b, u, l] =>
+    some (optHex (some (Spec.flagSuffix (Spec.adjustSeen (a == [110]) (b == [110]) (Proofs.lettersOf ⟨asNat u, asNat l⟩)))))
+  | "M", "pslice", [path, siz, beg, e] => some (optHex (Model.pathslice path (asNat siz) (asInt beg) (asInt e)))
+  | "M", "pjoin", [siz, d, f] => some (optHex (Model.pathjoin (asNat siz) d f))
+  | _, _, _ => none
+
 def handleMsg (side op : String) (args : List Bytes) : Option String :=
   match side, op, args with
   | "M", "hparse", [m] => some (dumpTable (Model.parseMessage m))
@@ -283,14 +350,20 @@ def handle (side op : String) (args : List String) : String :=
   | "M", "r2047", some [s] => toHex (Model.rfc2047Decode s)
   | "S", "r2047", some [s] => toHex (cstr (Spec.rfc2047 s))
   | "S", "eval", some as => handleSpecEval as
-  | "S", _, some as =>
-    match handleSpec op as with
-    | some r => r
-    | none => "BADOP"
-  | _, _, some as =>
-    match handleMsg side op as with
-    | some r => r
-    | none => "BADOP"
+  | sd, "interp", some as => handleInterp sd as
+  | sd, o, some as =>
+    if ["tzoff", "tparse", "flagsp", "flagss", "msgflags", "pslice", "pjoin"].contains o then
+      match handleSmall sd o as with
+      | some r => r
+      | none => "NOTWF"
+    else if sd == "S" then
+      match handleSpec o as with
+      | some r => r
+      | none => "BADOP"
+    else
+      match handleMsg sd o as with
+      | some r => r
+      | none => "BADOP"
 
 partial def loop (h : IO.FS.Stream) (out : IO.FS.Stream) : IO Unit := do
   let line ← h.getLine
